@@ -3,7 +3,16 @@ module verif/harness
 go 1.16
 
 require (
+	github.com/cosmos/cosmos-sdk v0.41.3
+	github.com/gorilla/websocket v1.4.2
 	github.com/ovrclk/akash v0.0.0
+	github.com/tendermint/tendermint v0.34.9
+	github.com/tendermint/tm-db v0.6.4
+	google.golang.org/grpc v1.35.0
+	gopkg.in/yaml.v3 v3.0.0-20210107192922-496545a6307b
+	k8s.io/api v0.19.3
+	k8s.io/apimachinery v0.20.2
+	k8s.io/client-go v0.19.3
 )
 
 replace github.com/ovrclk/akash => /repo
